@@ -67,7 +67,7 @@ def main():
                     'perturbations',
             'bound': '%d evaluations' % r['evaluations'],
             'evaluations': r['evaluations'],
-            'distinct_nontrivial': r['evaluations']})
+            'distinct_nontrivial': r.get('distinct_nontrivial', 0)})
         if r['witness']:
             chk.report_violation('bounded.typed_attributes',
                                  {'witness': r['witness']}, True,
